@@ -414,3 +414,13 @@ ob("relay.term", "relay/relay_h.c", ["-DOP_TERM", "-DUT_STD_ASSERT"], ["C20"], u
 PROPERTY_META["C20"] = {"assumptions": ["XCM-API contract mock per xcm.h: xcm_send accepts (0 / 1..len) or refuses (EAGAIN) or fails (EPIPE, ECONNRESET); xcm_receive returns one message, 0 or -1; the library below the API is what C01..C19 decide",
                                         "libevent mock (event_assign/add/del record their arguments)", "content tier: messages of <= 6 bytes; scaled twin: the forwarder's buffer is 16 bytes"],
                         "trusted_base": [], "bounds": "one callback firing from an arbitrary valid state", "outside": "libevent itself; main.c; several concurrent relays share nothing but the rserver list"}
+
+# --------------------------------------------------------------------------
+# utls: xcm_tp_utls.c over typestate mocks of its ux and tls sub-sockets
+# --------------------------------------------------------------------------
+UT = {"LIFE_SERVER": (["C08"], "utls_init -> utls_server with every sub-operation failing at will -> (close | cleanup): each sub-socket closed at most once, never after its own failed server(), never destroyed while open"),
+      "LIFE_CONNECT": (["C08", "C01"], "utls_init -> utls_connect (UX first, TLS fallback on ECONNREFUSED) -> close: exactly one live leg, the other released at once"),
+      "LIFE_ACCEPT": (["C08", "C01"], "utls_accept from a serving UTLS socket (UX leg first, then TLS) -> close | cleanup; the server's legs are untouched"),
+      "DELEGATE": (["C01", "C03", "C04", "C16", "C17"], "send/receive/finish/counters/max_msg/update of a connected UTLS socket go to the one live leg, results passed through")}
+for op, (props, d) in UT.items():
+    ob("utls." + op.lower(), "utls/utls_h.c", ["-DOP_" + op], props, unwind=16, desc=d)
